@@ -493,7 +493,12 @@ Inductive case :=
 | CTProj (tb : tabs) (f : family) (is_scalar : bool) (cols : list (list float * list float))
          (stack : list (transform float)) (tid : option Z) (kw_l kw_h : float)
          (obs_stack : list (transform float)) (obs_tid : option Z) (obs_tl obs_th : float)
-         (obs_elems : list (list float)) (obs_lognorm : list float) (obs_id : Z) (obs_l obs_h : float).
+         (obs_elems : list (list float)) (obs_lognorm : list float) (obs_id : Z) (obs_l obs_h : float)
+(* NormalMessage.value_for (the quantile function) of a scalar or array message: rows of unit values (one per element)
+   and, for EVERY ROUTE by which the units were handed over (python float, np.float64, 0-d, 1-element, k-element,
+   (k,1), (k,n) arrays, one row per call, again after the array calls), the observed quantiles; erfinv is an oracle
+   table keyed by the argument the model computes *)
+| CQuant (erfinv_tab : tab1) (elems_ : list (list float)) (us : list (list float)) (obs : list (list (list float))).
 
 Definition fpair_eqb (a b : float * float) : bool := fbits_eqb (fst a) (fst b) && fbits_eqb (snd a) (snd b).
 
@@ -524,8 +529,21 @@ Fixpoint hist_ok (O : ops float) (m : msg (T := float)) (steps : list (list nat 
 
 Definition no_tabs : tabs := mktabs [] [] [] [] [] [] [] [] [] [] [].
 
+(* `self.mean + (self.sigma * np.sqrt(2) * inv)`, inv = erfinv(1 - 2.0 * (1.0 - unit)) in BOTH branches of the code *)
+Definition sqrt2f : float := 0x1.6a09e667f3bcdp+0%float.
+Definition quant_arg (u : float) : float := PrimFloat.sub 1%float (PrimFloat.mul 2%float (PrimFloat.sub 1%float u)).
+Definition value_for_f (tb : tab1) (p : list float) (u : float) : float :=
+  match p with
+  | [mu; sg] => PrimFloat.add mu (PrimFloat.mul (PrimFloat.mul sg sqrt2f) (look1 tb (quant_arg u)))
+  | _ => nan
+  end.
+
 Definition check_case (c : case) : bool :=
   match c with
+  | CQuant tb es us obs =>
+      let want := map (fun row => map2 (value_for_f tb) es row) us in
+      forallb (fun o => list_eqb flist_eqb want o) obs && negb (Nat.eqb (length obs) 0)
+      && forallb (fun row => Nat.eqb (length row) (length es)) us
   | CHist f e0 steps obs =>
       hist_ok (fops false no_tabs) (mkmsg f false e0 0%float 0%Z neg_infinity infinity) steps obs
   | CProjExc f => family_eqb f FBeta && negb (beta_project_ok cur)
